@@ -375,7 +375,7 @@ def eval_pattern(n, ctx):
     if t == "values":
         return [{v: dec(x) for v, x in zip(n[1], row) if x is not None} for row in n[2]]
     if t == "subselect":
-        return eval_select(n[1], ctx)["solutions"]
+        return apply_slice(n[1], eval_select(n[1], ctx)["solutions"], ctx)
     if t == "graph":
         name = n[1]
         named = ctx.dataset["named"]
@@ -460,7 +460,10 @@ def eval_seeded(n, ctx, seed, forget=False):
     if t == "union": return eval_seeded(n[1], ctx, seed, forget) + eval_seeded(n[2], ctx, seed, forget)
     if t == "subselect":
         spec = n[1]
-        if set(spec) - {"where", "proj", "distinct", "star"} or any(not isinstance(p, str) for p in spec.get("proj") or []): raise Latitude("sub-select with modifiers")
+        if set(spec) - {"where", "proj", "distinct", "star", "orderby", "limit", "offset"} or any(not isinstance(p, str) for p in spec.get("proj") or []): raise Latitude("sub-select with modifiers")
+        if spec.get("distinct") or spec.get("limit") is not None or spec.get("offset") is not None:
+            # DISTINCT and slices are where such an engine stops handing bindings down: the sub-select is evaluated on its own and joined
+            return join([seed], eval_pattern(n, ctx), ctx)
         keep = set(select_vars(spec)) | set(seed)
         sols = [{k: v for k, v in m.items() if k in keep} for m in eval_seeded(spec["where"], ctx, seed, forget)]
         if spec.get("distinct"):
@@ -580,6 +583,28 @@ def order_cmp(a, b):
     except (Latitude, Err):
         return 0 if lkey(a) == lkey(b) else None
     return None
+
+
+def apply_slice(spec, sols, ctx):
+    """LIMIT / OFFSET of a sub-select. The slice is only defined where ORDER BY puts the solutions in a total order up to identical rows;
+    everything else is left open by the specification (Latitude)."""
+    if spec.get("limit") is None and spec.get("offset") is None: return sols
+    import functools
+    ob = spec.get("orderby") or []
+    def key_of(ex, m):
+        try: return ev(ex, m, ctx)
+        except Err: return None
+    def cmp(a, b):
+        for ex, desc in ob:
+            c = order_cmp(key_of(ex, a), key_of(ex, b))
+            if c is None: raise Latitude("slice over an order SPARQL does not define")
+            if c: return -c if desc else c
+        if frozenset((k, rkey(v)) for k, v in a.items()) != frozenset((k, rkey(v)) for k, v in b.items()):
+            raise Latitude("slice over tied rows")
+        return 0
+    ordered = sorted(sols, key=functools.cmp_to_key(cmp))
+    off = spec.get("offset") or 0; lim = spec.get("limit")
+    return ordered[off: (off + lim) if lim is not None else None]
 
 
 # ------------------------------------------------------------------ SELECT with modifiers and aggregates (spec 18.2.4, 18.2.5, 18.5)
